@@ -73,6 +73,12 @@ pub fn scratch_root() -> String {
 /// Create a fresh, empty scratch directory and return its path.
 pub fn fresh_dir(tag: &str) -> String {
     let n = SCRATCH_CTR.fetch_add(1, Ordering::Relaxed);
+    // under `-Zmiri-many-seeds` several interpreted runs share one pid: add per-run entropy
+    #[cfg(miri)]
+    let tag = {
+        use std::hash::BuildHasher;
+        format!("{}-{:x}", tag, std::collections::hash_map::RandomState::new().hash_one(n))
+    };
     let d = format!("{}/{}-{}", scratch_root(), tag, n);
     let _ = std::fs::remove_dir_all(&d);
     std::fs::create_dir_all(&d).expect("create scratch dir");
